@@ -178,6 +178,8 @@ class Projector:
         for e in evs[1:]:
             k = e["ev"]
             if k == "Selected":
+                if e.get("inparse"):
+                    continue  # --describe asking the registry while arguments are parsed: not the run's selection
                 out.append({"ev": "Selected", "ids": list(e["ids"])})
             elif k == "CodemodStart":
                 out.append({"ev": "CodemodStart", "c": e["c"]})
